@@ -68,7 +68,7 @@ func c20describe(hist []porcupine.Operation, skipClient int, f func(in, out inte
 
 func c20Gen(r *sim.Rand, tier string) *sim.Case {
 	cs := &sim.Case{Knobs: map[string]int64{}}
-	cs.Variant = []string{"vlan", "qinq", "pppoe", "pppoe-wrap", "state-session", "state-lease", "allocstore", "submgr", "circuit"}[r.Weighted(60, 32, 32, 3, 14, 14, 18, 45, 8)]
+	cs.Variant = []string{"vlan", "qinq", "pppoe", "pppoe-wrap", "state-session", "state-lease", "allocstore", "submgr", "circuit", "pon"}[r.Weighted(60, 32, 32, 3, 14, 14, 18, 45, 8, 30)]
 	ncl := sim.Pick(r, 1, 1, 1, 2, 2, 3, 4)
 	if cs.Variant == "pppoe-wrap" || cs.Variant == "circuit" {
 		ncl = 1
@@ -201,6 +201,27 @@ func c20Gen(r *sim.Rand, tier string) *sim.Case {
 			}
 			return sim.Op{K: "byip", A: []int64{int64(cl), int64(r.N(3))}}
 		}
+	case "pon":
+		cs.Knobs["ns"] = int64(r.Range(1, 2))
+		cs.Knobs["nc"] = int64(r.Range(1, 4))
+		cs.Knobs["echo"] = int64(r.Range(1, 2))
+		cs.Knobs["qorder"] = int64(r.N(3))
+		cs.Knobs["retries"] = int64(r.N(3))
+		gen = func(cl int) sim.Op {
+			if r.P(75) {
+				if r.P(40) {
+					return sim.Op{K: "disc", A: []int64{int64(cl), int64(hot)}}
+				}
+				return sim.Op{K: "disc", A: []int64{int64(cl), int64(r.N(n))}}
+			}
+			return sim.Op{K: "disconnect", A: []int64{int64(cl), int64(r.N(n))}}
+		}
+		between = func() []sim.Op {
+			if r.P(45) {
+				return []sim.Op{{K: "storefail", A: []int64{int64(r.N(4)), int64(r.N(6))}}}
+			}
+			return nil
+		}
 	case "circuit":
 		gen = func(cl int) sim.Op {
 			if r.P(70) {
@@ -327,6 +348,8 @@ func c20Run(c *sim.Ctx) {
 		d = newC20submgr(c, nent)
 	case "circuit":
 		d = newC20circuit(c, nent)
+	case "pon":
+		d = newC20pon(c, nent)
 	default:
 		return
 	}
@@ -440,10 +463,11 @@ func init() {
 			"qinq.Mapper (Register, Unregister, UnregisterSubscriber, GetSubscriber, GetVLAN; statement-level yields)",
 			"pppoe.SessionManager (CreateSession, GetSession, GetSessionByMAC, RemoveSession, CleanupExpired, Session.UpdateActivity; id counter driven around 65535 by repeated create/remove; statement-level yields)",
 			"state.Store session and lease tables with their by-MAC / by-IP indexes", "allocator.MemoryAllocationStore (by pool / subscriber / IP)",
-			"subscriber.Manager (CreateSession, AssignAddress, TerminateSession, lookups by id / MAC / IP)", "ebpf.MakeCircuitIDKey, ebpf.HashCircuitID"},
+			"subscriber.Manager (CreateSession, AssignAddress, TerminateSession, lookups by id / MAC / IP)", "ebpf.MakeCircuitIDKey, ebpf.HashCircuitID",
+			"pon.Manager (discovery worker with retries, HandleDisconnect; statement-level yields) over nexus.Client (typed stores, watch caches) and nexus.VLANAllocator"},
 		Stub: []string{"NTE store behind LoadFromStore/SyncToNTE (in-memory map of nexus.NTE records)", "address allocator behind subscriber.Manager (lowest-free model over 1-3 addresses)",
-			"fixed-key circuit-id map (harness map keyed by the real MakeCircuitIDKey/HashCircuitID; kernel maps absent)", "callers (harness tasks)"},
-		Rule: "cases: one component per run; 3-16 rounds of 1-4 callers x 0-2 ops over <=5 NTEs/subscribers/MACs (VLAN: half of a round's ops go to one hot NTE, plus a release-vs-move motif; scheduling quanta up to 256 yields), tag ranges 1-2 outer x 1-3 inner, stored-pair loads (restart / reload, incl. conflicting records), two sessions per MAC (PPPoE session table only; state.Store records keep distinct MACs and addresses, key changes through Update), id wrap-around (65535 create/remove pairs), cleanup under virtual time; subscriber.Manager: single or dual stack over an idempotent allocator stub whose calls are scheduling points with an occasional 1 ms latency, with a motif (a session holding its addresses is re-assigned while it is terminated, a fresh session is assigned meanwhile, a third afterwards); non-trivial = >=3 completed operations and (a fault fired or >2 context switches); distinct = distinct (case hash, schedule fingerprint)",
+			"fixed-key circuit-id map (harness map keyed by the real MakeCircuitIDKey/HashCircuitID; kernel maps absent)", "key-value store behind nexus.Client in the pon variant (in-memory, asynchronous change notifications, single failing calls)", "callers (harness tasks)"},
+		Rule: "cases: one component per run; 3-16 rounds of 1-4 callers x 0-2 ops over <=5 NTEs/subscribers/MACs (VLAN: half of a round's ops go to one hot NTE, plus a release-vs-move motif; scheduling quanta up to 256 yields), tag ranges 1-2 outer x 1-3 inner, stored-pair loads (restart / reload, incl. conflicting records), two sessions per MAC (PPPoE session table only; state.Store records keep distinct MACs and addresses, key changes through Update), id wrap-around (65535 create/remove pairs), cleanup under virtual time; subscriber.Manager: single or dual stack over an idempotent allocator stub whose calls are scheduling points with an occasional 1 ms latency, with a motif (a session holding its addresses is re-assigned while it is terminated, a fresh session is assigned meanwhile, a third afterwards); pon.Manager: discoveries (half on a hot ONT) and disconnects from 1-4 callers, one failing store Put/Get armed between rounds, 0-2 retries, FIFO or per-event change notifications; non-trivial = >=3 completed operations and (a fault fired or >2 context switches); distinct = distinct (case hash, schedule fingerprint)",
 		QuickRuns:    60000,
 		ThoroughRuns: 1500000,
 		Assumptions: []string{"a tag value of 0 is never offered (0 = no tag)",
